@@ -91,6 +91,13 @@ def adversary_bytes(tpl, b):
         return b'GET /get HTTP/1.1\r\nHost: ' + B(b[0], b[1]) + b'\r\n\r\n'
     if tpl == 'rev_api':
         return b'GET /api/' + B(b[0], b[1]) + b' HTTP/1.1\r\nHost: x\r\n\r\n'
+    if tpl == 'ws':
+        # bytes after a completed websocket handshake: FIN+text, a length/mask byte that is arbitrary, then fewer payload bytes than most
+        # values of it announce (truncated frame), exactly as many (b0 == 1) or more (b0 == 0)
+        return B(0x81, b[0], b[1])
+    if tpl == 'ws_ctl':
+        # arbitrary first byte (opcode / flags incl. CLOSE, PING, reserved), one-byte payload
+        return B(b[0], 0x01, b[1])
     if tpl == 'truncated':
         return b'GET http://h.example/' + B(b[0]) + b' HTT'
     raise ValueError(tpl)
@@ -146,7 +153,9 @@ def isolate(b0: int, b1: int, b2: int, cab: int, uab: int, when: int) -> bool:
     # multi-byte UTF-8 / delimiter contexts are present without multiplying the paths
     b1 = CFG.get('b1', 0x61)
     b2 = CFG.get('b2', 0x62)
-    if adv_at == 0:
+    if tpl in ('ws', 'ws_ctl'):
+        adv.inq.append(scen.WS_HANDSHAKE)
+    elif adv_at == 0:
         adv.inq.append(adversary_bytes(tpl, [b0, b1, b2]))
     second = CFG.get('second')
     ex = xk.ex
@@ -203,7 +212,7 @@ def isolate(b0: int, b1: int, b2: int, cab: int, uab: int, when: int) -> bool:
     if role in ('forward', 'all'):
         if not any(a[0] == 'late.example' for a, s in env.connects):
             return fail('later connection not served')
-    elif role == 'web':
+    elif role in ('web', 'webws'):
         if b'hello:/hello' not in late.out:
             return fail('later connection not served', out=repr(late.out[:60]))
     return ok()
@@ -238,6 +247,10 @@ def obligations(tier):
         for cab in (0, 1, 2, 5):
             add('web.%s.cab%d' % (tpl, cab), role='web', tpl=tpl, cab=cab, uab=0, when=1)
         add('web.%s.second' % tpl, role='web', tpl=tpl, cab=0, uab=0, when=2, second=True)
+    # websocket route: arbitrary / truncated frame bytes after the handshake
+    for tpl in ('ws', 'ws_ctl'):
+        for cab in (0, 1, 2):
+            add('ws.%s.cab%d' % (tpl, cab), role='webws', tpl=tpl, cab=cab, uab=0, when=2, second=True)
     for tpl in ('rev_get', 'rev_api'):
         for conn in ('ok', 'refused', 'timeout', 'gaierror', 'oserror'):
             add('rev.%s.connect_%s' % (tpl, conn), role='all', tpl=tpl, connect=conn, cab=0, uab=0, when=2)
@@ -269,11 +282,14 @@ META = {
                  '(path, host, User-Agent, method, CONNECT host, raw, web path, reverse-proxy route, truncated) in forward / web / reverse roles; '
                  'client-side abort in {none, EOF, reset, EIO on recv, EPIPE on send}; upstream connect outcome in {ok, refused, timeout, '
                  'resolution failure, unreachable}; upstream abort in {EOF, reset, EIO, timeout} before/after answering; a second keep-alive '
-                 'request on web/reverse connections',
+                 'request on web/reverse connections; a websocket route: handshake followed by a frame with an arbitrary length/mask byte '
+                 '(truncated frames) or an arbitrary opcode byte; a call-count watchdog on the parser/frame/socket primitives turns a loop '
+                 'that makes no progress into a reported stall',
         'thorough': 'the same with 4 iterations',
     },
     'outside': 'asyncio scheduling (stubbed: tasks run to completion when created), more than one adversary at a time, KeyboardInterrupt, '
                'errors injected into the canary itself',
     'stubs': ['FakeLoop + asyncio.wait stub', 'FakeSelector deriving readiness from the fake sockets', 'FakeSocket scripted errors', 'connect '
-              'stub per target host', 'integer clock'],
+              'stub per target host', 'integer clock', 'fuel watchdog (envkit._install_fuel): 400 calls of parser/frame/socket primitives '
+              'per executor iteration'],
 }
